@@ -28,7 +28,7 @@ class Violation(Exception):
 
 class Part:
     def __init__(self, name, strategy=None, check=None, quick=(4, 100), thorough=(16, 500),
-                 enumerate_cases=None, machine=None, tolerate=None, time_quick=45.0, time_thorough=600.0):
+                 enumerate_cases=None, machine=None, tolerate=None, time_quick=45.0, time_thorough=600.0, fuzz=None):
         """
         name            : part name (unique within the property)
         strategy        : callable(tier) -> hypothesis strategy of JSON-able cases
@@ -49,6 +49,7 @@ class Part:
         self.tolerate = tolerate
         self.time_quick = time_quick
         self.time_thorough = time_thorough
+        self.fuzz = fuzz            # (campaigns, executions per campaign): coverage-guided atheris campaigns, thorough tier only
 
     def budget(self, tier):
         return self.quick if tier == "quick" else self.thorough
@@ -150,10 +151,34 @@ class Budget:
         return time.monotonic() > self.t_end
 
 
+def run_fuzz_campaign(prop, part_name, tier, seed_value, runs, timeout):
+    """atheris campaign in its own process (libFuzzer never returns); result comes back through a JSON file"""
+    import subprocess
+    import tempfile
+    import shutil
+    d = tempfile.mkdtemp(prefix="vffuzz-")
+    outfile = os.path.join(d, "out.json")
+    try:
+        try:
+            subprocess.run([sys.executable, "-m", "vf.fuzz", prop, part_name, tier, str(seed_value), str(runs), outfile],
+                           stdout=subprocess.DEVNULL, stderr=subprocess.DEVNULL, timeout=timeout)
+        except subprocess.TimeoutExpired:
+            pass
+        if os.path.exists(outfile):
+            with open(outfile) as f:
+                return json.load(f)
+        return {"part": part_name + "@atheris", "seed": seed_value, "violation": None, "tolerated": [], "wall_s": 0.0,
+                "error": None, "ev": Ev().dump(), "note": "atheris campaign produced no output (not available?)"}
+    finally:
+        shutil.rmtree(d, ignore_errors=True)
+
+
 def run_shard(prop, part_name, tier, seed_value, n_examples, enum=False):
     """Executed in a worker process. Returns a JSON-able dict."""
     import importlib
     t0 = time.monotonic()
+    if enum == "fuzz":
+        return run_fuzz_campaign(prop, part_name, tier, seed_value, n_examples, 1500)
     if not os.environ.get("VF_KEEP_STDERR"):
         # the compiled extension prints panic messages for out-of-domain calls straight to fd 2; errors of this
         # worker are reported through the returned dict instead
